@@ -47,11 +47,16 @@
 //	R9  loops.  `for i := 0; i < N; i++ { B }` where B mentions neither i nor any local variable and
 //	    N is arithmetic over locals is a recursive helper running B `N.toNat` times, threading the
 //	    heap and stopping at the first panic.  `for i, v := range ego.val { B }` over a list is a
-//	    recursive helper over the `List` of elements (the model's `serList`); the test
-//	    `i+1 < len(ego.val)` is "the remaining list is not empty".  `for k, v := range ego.val` over
-//	    a map runs over the association list in its order (Model/Heap.lean), and the counter test
-//	    `i++; i < len(ego.val)` with `i := 0` before the loop is again "the remaining list is not
-//	    empty".  A strings.Builder is the `Str` written so far (`Write*` appends).
+//	    recursive helper over the `List` of elements (the model's `serList`) that also carries the
+//	    number of elements before the current one, which is what the index `i` denotes; the test
+//	    `i+1 < len(ego.val)` is "the remaining list is not empty", a comparison of `i` with a
+//	    non-negative literal (`i > 0`) is that comparison of the carried number.
+//	    `for k, v := range ego.val` over a map runs over the association list in its order
+//	    (Model/Heap.lean); a counter with `i := 0` before the loop that is incremented exactly once on
+//	    every path through the body denotes the carried number before the increment and that number
+//	    + 1 behind it, so `i++; i < len(ego.val)` is again "the remaining list is not empty".
+//	    A strings.Builder is the `Str` written so far (`Write*` appends; WriteByte / WriteRune of a
+//	    character literal append that character).
 //	R10 serialisation works on the pure tree (`JVal`, Model/Basic.lean): `value.serialize()` on an
 //	    element is `ser` of the subtree (dynamic dispatch on the field type = the constructor),
 //	    `ego.getVal().(T)` is the payload of the constructor.  The float tests are the model's
@@ -59,14 +64,17 @@
 //	    `abs <= math.Pow10(-n)` ↦ `F64.absLeNegPow10 v n`, `v == math.Trunc(v)` ↦ `v.isWhole`,
 //	    `strconv.FormatFloat(v, 'e'/'f', -1, 64)` ↦ `F64.fmtE/fmtF v`; they are used by the model only
 //	    for finite v, the NaN / ±Inf cases are decided by evaluating the same Go expressions on
-//	    those values (NaN: every comparison false; ±Inf: abs >= 1e6 true).
+//	    those values (NaN: every comparison false; ±Inf: abs >= 1e6 true).  `x != y` of floats is
+//	    `!(x == y)` for all values (NaN included), `==` / `!=` are symmetric.
 //	    Library text functions: `strconv.FormatBool(b)` ↦ "true" / "false", `strconv.Itoa` ↦ `itoa`,
 //	    `quoteJSON` ↦ the model's `quoteJSON` (proved equal to its translation in ParserGenEq),
 //	    `fmt.Sprintf` with only `%s` verbs ↦ concatenation of the pieces.
 //	R11 FormatString: `json.Indent(buf, []byte(ego.String()), "", strings.Repeat(" ", n))` with the
 //	    error discarded is `indentGo n.toNat (ser v) false false false 0` when the text is valid
 //	    JSON and the empty buffer otherwise (`hasNonFinite v`), see Model/Indent.lean.  A panic is
-//	    `none`.  `ego.String()` is `ser` of the receiver (its body must be `return ego.Ego().serialize()`).
+//	    `none`.  `ego.String()` is `ser` of the receiver (its body must be `return ego.Ego().serialize()`);
+//	    the text may also be a local that was bound to it by `src := ego.String()` and not assigned since
+//	    (strings are immutable values; the local is a `let` in the translation).
 //	R12 unquoteJSON: only the `switch str[i+1]` behind a backslash is translated, read for the byte as
 //	    a character (all cases are ASCII literals, a byte ≥ 0x80 takes `default`); the translator
 //	    checks syntactically that the switch is reached exactly when `str[i] == '\\'` and a next byte
@@ -1140,6 +1148,7 @@ type sval struct {
 	lean string
 	prec int
 	aux  string // fabs / ftrunc: the float; pow10: the (signed) exponent; counter: zero / iter / inc
+	def  string // a let-bound local: the expression it was bound to
 	set  bool   // bool: constant
 	val  bool
 }
@@ -1262,6 +1271,11 @@ func (x *serx) expr(e ast.Expr, env *sEnv) sval {
 		if e.Op == token.SUB {
 			if v := x.expr(e.X, env); v.typ == "int" && v.prec == 100 {
 				return sAtom("int", "-"+v.lean)
+			}
+		}
+		if e.Op == token.NOT {
+			if v := x.expr(e.X, env); v.typ == "bool" && !v.set {
+				return sval{typ: "bool", lean: "!" + sWrap(v, 100), prec: 90}
 			}
 		}
 	case *ast.TypeAssertExpr:
@@ -1409,13 +1423,16 @@ func (x *serx) sbinary(e *ast.BinaryExpr, env *sEnv) sval {
 	case token.ADD:
 		a, b := x.expr(e.X, env), x.expr(e.Y, env)
 		if a.typ == "counter" && a.aux == "iter" && b.typ == "int" && b.lean == "1" {
-			return sval{typ: "counter", aux: "inc"}
+			return sval{typ: "counter", aux: "inc", lean: a.lean}
 		}
 		if a.typ == "str" && b.typ == "str" {
 			return sval{typ: "str", lean: sWrap(a, 65) + " ++ " + sWrap(b, 66), prec: 65}
 		}
 	case token.EQL, token.NEQ, token.LSS, token.GTR, token.LEQ, token.GEQ:
 		a, b := x.expr(e.X, env), x.expr(e.Y, env)
+		if a.typ == "ftrunc" && b.typ == "f64" && (e.Op == token.EQL || e.Op == token.NEQ) {
+			a, b = b, a // == and != of floats are symmetric
+		}
 		fn := func(name, v, n string) sval {
 			lean := name + " " + v
 			if n != "" {
@@ -1438,6 +1455,16 @@ func (x *serx) sbinary(e *ast.BinaryExpr, env *sEnv) sval {
 			return fn("goAbsPos", a.aux, "")
 		case a.typ == "f64" && b.typ == "ftrunc" && sWrap(a, 100) == b.aux && e.Op == token.EQL:
 			return fn("goEqTrunc", b.aux, "")
+		// `x != y` of floats is `!(x == y)` for every pair of values, NaN included
+		case a.typ == "f64" && b.typ == "ftrunc" && sWrap(a, 100) == b.aux && e.Op == token.NEQ:
+			return sval{typ: "bool", lean: "!(" + fn("goEqTrunc", b.aux, "").lean + ")", prec: 90}
+		// R9: the number of elements before the current one against a literal
+		case a.typ == "counter" && (a.aux == "iter" || a.aux == "inc") && a.lean != "" && b.typ == "int" && b.prec == 100 && !strings.HasPrefix(b.lean, "-"):
+			l := a.lean
+			if a.aux == "inc" {
+				l += " + 1"
+			}
+			return sval{typ: "bool", lean: l + " " + e.Op.String() + " " + b.lean, prec: 50}
 		}
 	}
 	failAt(e, "unrecognised expression: %s", src(e))
@@ -1482,7 +1509,8 @@ func (x *serx) indent(list []ast.Stmt, env *sEnv) lnode {
 		failAt(call.Args[1], "expected `[]byte(…)`")
 	}
 	text := x.str(conv.Args[0], env)
-	if text != "serGen "+paren(x.self) {
+	// the receiver's String() itself, or a local that was bound to it (strings are immutable values)
+	if tv := x.expr(conv.Args[0], env); text != "serGen "+paren(x.self) && tv.def != "serGen "+paren(x.self) {
 		failAt(conv.Args[0], "the indented text must be the receiver's String()")
 	}
 	rep, ok := unparen(call.Args[3]).(*ast.CallExpr)
@@ -1498,7 +1526,7 @@ func (x *serx) indent(list []ast.Stmt, env *sEnv) lnode {
 		failAt(list[2], "expected `return %s.String()`", buf)
 	}
 	return lIf{cond: "hasNonFinite " + paren(x.self), a: lLeaf{"some []"},
-		b: lLeaf{"some (indentGo " + sWrap(n, 100) + ".toNat (" + text + ") false false false 0)"}}
+		b: lLeaf{"some (indentGo " + sWrap(n, 100) + ".toNat " + paren(text) + " false false false 0)"}}
 }
 
 func (x *serx) appendTo(b sval, piece string) sval {
@@ -1545,7 +1573,9 @@ func (x *serx) execStmt(st ast.Stmt, env *sEnv, k sKont) lnode {
 				case "str", "f64", "int", "bool":
 					if v.prec < 100 {
 						name := x.fresh(id.Name)
-						e.vars[id.Name] = sAtom(v.typ, name)
+						bound := sAtom(v.typ, name)
+						bound.def = v.lean
+						e.vars[id.Name] = bound
 						return lLet{name: name, val: v.lean, body: k(e)}
 					}
 					e.vars[id.Name] = v
@@ -1576,7 +1606,7 @@ func (x *serx) execStmt(st ast.Stmt, env *sEnv, k sKont) lnode {
 		if id, ok := st.X.(*ast.Ident); ok && st.Tok == token.INC {
 			if v := env.vars[id.Name]; v.typ == "counter" && v.aux == "iter" && x.rest != "" {
 				e := env.clone()
-				e.vars[id.Name] = sval{typ: "counter", aux: "inc"}
+				e.vars[id.Name] = sval{typ: "counter", aux: "inc", lean: v.lean}
 				return k(e)
 			}
 		}
@@ -1694,19 +1724,26 @@ func (x *serx) execRange(st *ast.RangeStmt, env *sEnv, k sKont) lnode {
 	benv.vars[bname] = sAtom("builder", accN)
 	benv.vars[val] = sAtom("jval", valN)
 	pat, elemT := valN, "JVal"
+	// idxN: the number of elements before the current one
+	idxN := ""
 	if x.elemKind == "object" {
 		keyN := x.fresh(key)
 		benv.vars[key] = sAtom("str", keyN)
 		pat, elemT = "("+keyN+", "+valN+")", "(Str × JVal)"
 		if counter != "" {
-			benv.vars[counter] = sval{typ: "counter", aux: "iter"}
+			// a counter that is 0 before the loop and incremented exactly once per iteration (checked below)
+			idxN = x.fresh(counter)
+			benv.vars[counter] = sval{typ: "counter", aux: "iter", lean: idxN}
+		} else {
+			idxN = x.fresh("i")
 		}
 	} else {
 		// the index of a slice is the number of elements before the current one
 		if counter != "" {
 			failAt(st, "unsupported counter %s", counter)
 		}
-		benv.vars[key] = sval{typ: "counter", aux: "iter"}
+		idxN = x.fresh(key)
+		benv.vars[key] = sval{typ: "counter", aux: "iter", lean: idxN}
 	}
 	x.rest = restN
 	body := x.execList(st.Body.List, benv, func(e *sEnv) lnode {
@@ -1714,19 +1751,19 @@ func (x *serx) execRange(st *ast.RangeStmt, env *sEnv, k sKont) lnode {
 			failAt(st, "the counter %s must be incremented exactly once per iteration", counter)
 		}
 		b := e.vars[bname]
-		return lLeaf{name + " " + restN + " " + sWrap(sval{lean: b.lean, prec: b.prec}, 100)}
+		return lLeaf{name + " " + restN + " (" + idxN + " + 1) " + sWrap(sval{lean: b.lean, prec: b.prec}, 100)}
 	})
 	x.rest = ""
 	x.used = savedUsed
 	var b strings.Builder
-	fmt.Fprintf(&b, "/-- the loop at %s over the remaining elements, `%s` = the text written so far -/\ndef %s : List %s → Str → Str\n  | [], %s => %s\n  | %s :: %s, %s =>\n    ",
-		where(st), accN, name, elemT, accN, accN, pat, restN, accN)
+	fmt.Fprintf(&b, "/-- the loop at %s over the remaining elements, `%s` = the text written so far,\n`%s` = the number of elements before the current one -/\ndef %s : List %s → Nat → Str → Str\n  | [], _, %s => %s\n  | %s :: %s, %s, %s =>\n    ",
+		where(st), accN, idxN, name, elemT, accN, accN, pat, restN, idxN, accN)
 	emit(&b, body, "    ")
 	b.WriteString("\n")
 	*x.helpers = append(*x.helpers, b.String())
 	e := env.clone()
 	old := env.vars[bname]
-	e.vars[bname] = sval{typ: "builder", lean: name + " " + x.ranged + " " + sWrap(sval{lean: old.lean, prec: old.prec}, 100), prec: 70}
+	e.vars[bname] = sval{typ: "builder", lean: name + " " + x.ranged + " 0 " + sWrap(sval{lean: old.lean, prec: old.prec}, 100), prec: 70}
 	if counter != "" {
 		e.vars[counter] = sval{typ: "unit"}
 	}
